@@ -99,7 +99,7 @@ def drive(tdf, seq):
 
 MUTATORS = ["add_block", "remove_block", "replace_block", "set:data3D", "set:force_and_torque", "set:force_platforms_data", "set:events", "set:emg"]
 READERS = ["blocks", "get_block:type", "get_block:absent", "get_block:0", "getitem:0", "data3D", "force_and_torque", "force_platforms_data", "events", "emg",
-           "calibrationData", "has_data3D", "has_force_and_torque", "has_events", "has_emg", "has_force_platforms_data", "len", "nBytes", "eq", "repr", "copy", "getitem:type"]
+           "calibrationData", "has_data3D", "has_force_and_torque", "has_events", "has_emg", "has_force_platforms_data", "len", "nBytes", "eq", "eq_broken", "repr", "copy", "getitem:type"]
 
 
 def case(seq, op, N, live, free_offsets=None):
@@ -113,6 +113,10 @@ def case(seq, op, N, live, free_offsets=None):
         C.install_recorders(I)
         if op == "eq":
             m2, _ = C.make_prestate(I, fs, "g.tdf", N, live, tag="q")
+        if op == "eq_broken":
+            # the other operand cannot be opened (not a TDF file): the comparison may raise,
+            # but the object it was asked of must come out of it in the mode it was in
+            fs.create_raw("g.tdf", I.rawbytes("q.raw", 5))
         pre = fs.obs("f.tdf")
         tdf = Tdf(fs.path("f.tdf"))
         drive(tdf, seq)
@@ -154,6 +158,8 @@ def case(seq, op, N, live, free_offsets=None):
                 res = tdf.nBytes
             elif op == "eq":
                 res = tdf == Tdf(fs.path("g.tdf"))
+            elif op == "eq_broken":
+                res = tdf == Tdf(fs.path("g.tdf"))
             elif op == "repr":
                 res = repr(tdf)
             elif op == "copy":
@@ -184,6 +190,15 @@ def case(seq, op, N, live, free_offsets=None):
                 unchanged(I, P, fs, fs.obs("g.tdf"), m2, None, None, N, "v", ".by_reader.other_file", name="g.tdf")
             if op == "nBytes" and exc is None:
                 P("reported_size_is_file_size", res == after.length)
+            if op in ("eq", "eq_broken") and not inside:
+                # ... and a mutation issued afterwards with no context is still refused
+                try:
+                    tdf.remove_block(tb.BlockType(live[0]))
+                    exc3 = None
+                except Exception as e:  # noqa: BLE001
+                    exc3 = e
+                P("mutation_outside_write_context_raises", exc3 is not None, f"remove_block after a comparison, after {''.join(seq) or 'nothing'}")
+                unchanged(I, P, fs, pre, model, None, None, N, "w", ".by_forbidden_mutation", name="f.tdf")
         handles_after = fs.open_handles()
         P("implicitly_opened_handles_are_closed", handles_after == handles_before, f"before={handles_before} after={handles_after} ({op})")
         # leaving the mode: everything is closed again and a reader still works
@@ -345,9 +360,9 @@ def instances(tier):
     for N, live in shapes:
         for seq in seqs:
             for op in MUTATORS + READERS:
-                if q and len(seq) >= 4 and op in READERS and op not in ("blocks", "len", "copy", "eq", "events", "nBytes"):
+                if q and len(seq) >= 4 and op in READERS and op not in ("blocks", "len", "copy", "eq", "eq_broken", "events", "nBytes"):
                     continue
-                if not q and len(seq) >= 5 and op in READERS and op not in ("blocks", "len", "copy", "eq", "events"):
+                if not q and len(seq) >= 5 and op in READERS and op not in ("blocks", "len", "copy", "eq", "eq_broken", "events"):
                     continue
                 inside, writable = expected_mode(seq)
                 goal = ("either" if writable is None else ("allowed" if writable else "forbidden")) if op in MUTATORS else "reader"
